@@ -186,9 +186,35 @@ func c06Reader(c *rt.Ctx, ent int, label string) io.Reader {
 		return zeroReader{}
 	case 3:
 		return constReader(0xff)
-	default:
+	case 4:
 		return &counterReader{}
+	case 5:
+		return &stutterReader{r: rt.NewRng(c.Seed, label), k: 1}
+	case 6:
+		return &stutterReader{r: rt.NewRng(c.Seed, label), k: 16}
+	case 7:
+		return &stutterReader{r: rt.NewRng(c.Seed, label), k: 17}
+	case 8:
+		return &stutterReader{r: rt.NewRng(c.Seed, label), k: 100}
+	default:
+		return &stutterReader{r: rt.NewRng(c.Seed, label), k: 1000}
 	}
+}
+
+// stutterReader is an entropy source that never fails but answers a request with at most k bytes
+// per call (as a pipe, a socket or a rate-limited device does).
+type stutterReader struct {
+	r io.Reader
+	k int
+}
+
+func (s *stutterReader) Read(p []byte) (int, error) {
+	n := len(p)
+	if n > s.k {
+		n = s.k
+	}
+	s.r.Read(p[:n])
+	return n, nil
 }
 
 // checkBatch runs one batch and compares every entry with the model and with the implementation's
@@ -250,7 +276,7 @@ func checkBatch(c *rt.Ctx, what string, entries []triple, kinds []string, vs var
 }
 
 func jobC06(c *rt.Ctx) {
-	c.Require("level0", "level1", "level2", "chunkseq", "unsupported-hash", "kind/S+L", "kind/S-top-slice-valid", "kind/small-order-R", "kind/key-nil", "kind/bad-prehash-or-nil-msg")
+	c.Require("level0", "level1", "entropy-answers", "level2", "chunkseq", "unsupported-hash", "kind/S+L", "kind/S-top-slice-valid", "kind/small-order-R", "kind/key-nil", "kind/bad-prehash-or-nil-msg")
 	type optset struct {
 		vs  variantSpec
 		zip bool
@@ -326,6 +352,35 @@ func jobC06(c *rt.Ctx) {
 						c.Sample(map[string]interface{}{"n": n, "bad_position": p, "kind": kind, "variant": o.vs.String(), "zip215": o.zip, "entry": hexd(es[p])})
 					}
 					checkBatch(c, "level1", es, ks, o.vs, o.zip, (n+p)%2, fmt.Sprintf("l1-%d-%d", n, p))
+				}
+			}
+		}
+	}
+	// level 1e: environment answers of the entropy reader (short reads of 1, 16, 17, 100, 1000 bytes per call) x at most one bad entry: the randomisers of every entry must still be
+	// drawn, so the verdicts cannot change
+	for _, n := range []int{4, 5, 8, 64, 68, 130} {
+		for _, p := range []int{-1, 0, 1, n - 1, 63, 64, 65} {
+			if p >= n {
+				continue
+			}
+			for ent := 5; ent <= 9; ent++ {
+				for ki, kind := range []string{c06Kinds[1], c06Kinds[2]} {
+					if p < 0 && ki > 0 {
+						continue
+					}
+					if !c.Take() {
+						continue
+					}
+					bad := map[int]string{}
+					if p >= 0 {
+						bad[p] = kind
+					}
+					o := opts[(n+p+ent)%len(opts)]
+					es, ks := build(n, bad, o.vs)
+					c.Class("level1")
+					c.Class("entropy-answers")
+					c.Distinct(fmt.Sprintf("l1e %d %d %d %s", n, p, ent, kind), true)
+					checkBatch(c, "level1e", es, ks, o.vs, o.zip, ent, fmt.Sprintf("l1e-%d-%d", n, p))
 				}
 			}
 		}
